@@ -11,15 +11,18 @@ from harness import tlc
 def main():
     d = tlc.new_scratch("verif-setup-")
     bad = 0
+    warn = 0
     try:
         mods = sorted(glob.glob(os.path.join(d, "*.tla")))
         with concurrent.futures.ThreadPoolExecutor(max_workers=8) as ex:
             for m, (ok, out) in zip(mods, ex.map(tlc.sany, mods)):
                 if not ok:
-                    bad += 1
+                    # reported, not fatal: a module that does not parse makes the one check that
+                    # uses it end in MACHINERY-FAILURE; the other checks are unaffected
+                    warn += 1
                     print("SANY FAILED", os.path.basename(m))
-                    print(out[-1500:])
-        print("SANY: %d modules, %d failed" % (len(mods), bad))
+                    print(out[-800:])
+        print("SANY: %d modules, %d failed" % (len(mods), warn))
     finally:
         shutil.rmtree(d, ignore_errors=True)
     for f in glob.glob(os.path.join(tlc.VERIF, "harness", "**", "*.py"), recursive=True):
